@@ -19,6 +19,8 @@ CLAIMED = {
          "figure_tax() is swept (thorough: every whole-dollar income below $100,000 for 5 statuses x 3 years; every row and bracket boundary with one-cent neighbours; seeded incomes up to $1e12) and every observation is judged by TLC against an oracle written from the Revenue Procedures, independent of the program's hand-entered tables.", "6/C07"),
  "C08": ("translation_validation", "constants harvested from every bound line definition by forced execution per filing status; TLC compares them with the Official table of Statutory.tla",
          "Exhaustive over every (year, bound line, filing status) triple: the statutory-looking constants a line compares with, combines with, looks up or returns on any syntactic path must be exactly the published amounts (Rev. Proc. / instructions / NC D-401) transcribed in Statutory.tla; covers threshold tables and inline if/elif chains alike.", "6/C08"),
+ "C09": ("exploration", "TLC evaluates Gates.tla (frozen gate catalogue) on the trace summary of every explored run; gates flipped one at a time in solved base returns",
+         "For every catalogued gate input (76, drafted by forced execution and reviewed) read by a solved explored return, the return is re-solved with the gate affirmative (plus gate-directed amount variants); the invariant 'solved => no affirmative gate read by a non-exempt line, no exceeded limit' is evaluated by TLC on the reads of every run.", "6/C09"),
  "C10": ("translation_validation", "forced execution of every line definition along all syntactic paths; TLC runs the solver's resolution protocol (Catalogue.tla over SolverCore) on every reference",
          "Every line definition of every form and allowed instance in the three years is executed along its syntactic paths with mock accessors (branch outcomes forced both ways); each reference found (input, line, form, threshold, enumeration member, helper) is resolved by TLC with the solver's own AddForm/ApplyFinal/LoadSpec operators and must end resolved or in 'unsupported' for a deliberately absent form; attribute/name/key errors on any path are violations.", "6/C10"),
  "C15": ("exploration", "TLC evaluates Balance.tla (balance equations, exclusivity, sign constraints) on every solved explored return",
@@ -30,6 +32,7 @@ CLAIMED = {
 }
 
 NOTES = {
+ "C09": "the gate catalogue data/gates.json is a frozen, reviewed list (freshness against the current tree is reported in the thorough tier's evidence, never as a violation); gates whose input no explored return reads are listed in the evidence as gates_never_read",
  "C08": "the Official table is my transcription (internal consistency axioms checked by TLC); the list of bound lines is in Statutory.tla, lines with statutory-looking constants outside it are reported as observed_not_judged; the pairing of NC child-deduction bands with amounts is left to C02",
  "C17": "trusted base: introspection of Form objects, configparser for parsing the printed template; inline if/elif status chains are not tables and are covered by C08 probes",
  "C07": "the oracle's bracket table is my transcription of Rev. Proc. 2020-45/2021-45/2022-38, cross-checked by internal consistency axioms (MFJ = 2 x Single etc.) and by reproducing every row of the three shipped tables; worksheet values compared at +-1 cent; quick tier samples every 13th dollar",
